@@ -2963,12 +2963,7 @@ CaseExtRm:
           goto EmitVexEvexR;
         }
 
-        // Form 'k, k'.
-        if (!Support::test(options, InstOptions::kX86_ModMR))
-          goto EmitVexEvexR;
-
-        opcode.add(1);
-        std::swap(op_reg, rb_reg);
+        // Form 'k, k' (opcode+1 is the store form and requires a memory destination, so ModMR cannot be honoured).
         goto EmitVexEvexR;
       }
 
